@@ -50,7 +50,8 @@ def _pipeline_info(pipe, data, context, former_data=None):
         infos = []
         outputs = []
         for _, model, vs in pipe.transformers:
-            if all(map(lambda o: isinstance(o, int), vs)):
+            # positions may be numpy integers (columns given as an array)
+            if all(map(lambda o: isinstance(o, (int, numpy.integer)), vs)):
                 # a previous step may stand for several columns with one name
                 if isinstance(data, OrderedDict):
                     cols = list(data.items())
